@@ -681,7 +681,7 @@ package ristretto
 //@   requires applierOK(c) && charged(c) && conserved(c)
 //@   loop 1 modifies allmaps(cacheSM(c).shards[0].data), cacheSM(c).expiryMap.buckets[*], cacheSM(c).expiryMap.buckets[*][*], cacheSM(c).expiryMap.lastCleanedBucketNum, c.cachePolicy.evict.used, c.cachePolicy.evict.keyCosts[*], gcMtot[*], gcMaxCostLast, gcChan(c.setBuf), gcChan(c.stop), gcChan(c.done), gcChan(c.cleanupTicker.C), startTs[*]
 //@   loop 1 invariant #ok applierOK(c)
-//@   loop 1 invariant [C13] #charged charged(c)
+//@   loop 1 invariant [C13,C05] #charged charged(c)
 //@   loop 1 invariant [C17] #conserved conserved(c)
 //@   at call Del#3 assume [hypothesis] #no-collision !smHas(cacheSM(c), i.Key) || conflictOK(smEntry(cacheSM(c), i.Key), i.Conflict)
 //@   at call close#1 assume [hypothesis] #marker-open !gcClosed(i.wait) && i.wait != c.done && i.wait != c.stop
